@@ -127,6 +127,18 @@ func reads(f *fox.Router, host string) []read {
 		}},
 		{"Router.Has missing / invalid", func() { f.Has("GET", "/missing/{x}"); f.Has("GET", "not a pattern"); f.Route("BREW", "/static") }},
 		{"Router.Has", func() { f.Has("GET", "/r/{id}/x") }},
+		{"Router.Has / Route / Iter.Routes on every proper prefix of a registered pattern (ends inside an edge or on a node without route)", func() {
+			for _, p := range []string{"/r/{id}/x", "/static", "/files/*{path}", "/ix/*{any}/bar/ab", "/red/{id}/", "/wide/a0", "/deep/zz",
+				"{sub}.example.com/r/{id}/x", "{sub}.example.com/static", "{sub}.example.com/ix/*{any}/bar/ab", "other.example.com/static"} {
+				for i := 1; i < len(p); i++ {
+					f.Has("GET", p[:i])
+					f.Route("GET", p[:i])
+				}
+				it := f.Iter()
+				for range it.Routes(it.Methods(), p[:len(p)-1]) {
+				}
+			}
+		}},
 		{"Router.Route", func() { f.Route("POST", "/static") }},
 		{"Router.Len", func() { f.Len() }},
 		{"Router.Stats", func() { f.Stats() }},
